@@ -232,6 +232,52 @@ pub fn io_record(args: &Args) -> i32 {
             let f = *rng.pick(&[Fault::Error, Fault::Interrupted, Fault::Zero]);
             do_run(Script { at: vec![(k, f)], default: Fault::Short, seed: rng.next() }, format!("f{}:short+{}@{}", fi, fault_name(f), k), &mut out);
         }
+        // one byte per read and per write on a thread with a small stack (256 KiB), in a child process:
+        // how deep the call goes must not depend on how the transfers are fragmented
+        if container.len() >= 2000 {
+            out.flush().unwrap();
+            let res = isolated(2 << 30, 60, || {
+                let c2 = container.clone();
+                let h = std::thread::Builder::new().stack_size(256 << 10).spawn(move || {
+                    struct One<'a> { d: &'a [u8], p: usize }
+                    impl<'a> Read for One<'a> {
+                        fn read(&mut self, b: &mut [u8]) -> std::io::Result<usize> {
+                            if b.is_empty() || self.p >= self.d.len() { return Ok(0); }
+                            b[0] = self.d[self.p]; self.p += 1; Ok(1)
+                        }
+                    }
+                    struct OneW { v: Vec<u8> }
+                    impl Write for OneW {
+                        fn write(&mut self, b: &[u8]) -> std::io::Result<usize> { if b.is_empty() { return Ok(0); } self.v.push(b[0]); Ok(1) }
+                        fn flush(&mut self) -> std::io::Result<()> { Ok(()) }
+                    }
+                    let mut w = OneW { v: Vec::new() };
+                    let r = guarded(|| recreated_zlib_chunks(&mut One { d: &c2, p: 0 }, &mut w).is_ok());
+                    (r, w.v)
+                });
+                match h.map(|h| h.join()) {
+                    Ok(Ok((Ok(true), v))) => { let mut o = vec![1u8]; o.extend_from_slice(&v); o }
+                    Ok(Ok((Ok(false), _))) => vec![2u8],
+                    _ => vec![3u8],
+                }
+            });
+            let label = format!("f{}:one-byte-at-a-time on a 256 KiB stack", fi);
+            writeln!(cases, "{}", json!({"run":run,"label":label,"file":fi,"segs":segs,"script":{"at":[],"default":"one","seed":0},"container_hex":""})).unwrap();
+            writeln!(out, "{}", event("Reset", json!({"run":run,"label":label,"clen":container.len(),"flen":b.bytes.len()}))).unwrap();
+            match res {
+                Ok(v) if v.first() == Some(&1) => {
+                    let equal = v[1..] == b.bytes[..];
+                    writeln!(out, "{}", event("Summary", json!({"result":"ok","written":v.len() - 1,"equal":equal}))).unwrap();
+                }
+                Ok(v) => {
+                    writeln!(out, "{}", event("Summary", json!({"result": if v.first() == Some(&2) { "err" } else { "panic" },"written":0,"equal":false}))).unwrap();
+                }
+                Err(how) => {
+                    writeln!(out, "{}", event("Died", json!({"how":how}))).unwrap();
+                }
+            }
+            run += 1;
+        }
     }
     0
 }
